@@ -225,6 +225,8 @@ BLOCKS = {
     'prog_counter_probe': ('program', 'R', '\\newcounter{qpcount}\\stepcounter{qpcount}D\\arabic{qpcount}.%(n)s\n'),
     'prog_newif': ('program', 'W', '\\ifqpflag T\\else F\\fi%(n)s.\n'),
     'prog_userdata': ('program', 'W', 'Userdata u%(n)s.\n'),
+    'url_dashes': ('pkgtable', 'R', 'See \\url{http://example.org/one--two} u%(n)s.\n\n'),
+    'href_dashes': ('pkgtable', 'W', 'See \\href{http://example.org/a--b}{link%(n)s} and \\nolinkurl{http://x.example/c--d}.\n\n'),
     'lang_probe': ('language', 'R', 'Names \\figurename, \\tablename, \\contentsname, \\abstractname, \\today %(n)s.\n'),
     # conditionals: every argument form of the argument scanner's token types (Tok, XTok, Number, Dimen) on every exit path
     'ifx_macros_multi': ('switch', 'W', '\\def\\fxa{xy}\\def\\fxb{xy}\\ifx\\fxa\\fxb S\\else D\\fi%(n)s.\n'),
@@ -241,7 +243,7 @@ BLOCKS = {
     'newcount_assign': ('switch', 'R', '\\newcount\\fxtotal \\fxtotal=42 T\\the\\fxtotal. \\parskip=2pt plus 1pt Q%(n)s.\n'),
     'dimen_args_unitless': ('switch', 'W', 'A\\hspace{2}B\\vspace{1}C\\parbox{3}{box%(n)s}D\\rule{1}{2pt}E.\n'),
 }
-NEEDS = {'prog_coltype_right': ['qpa'], 'prog_coltype_center': ['qpb'], 'prog_charsubs': ['qpc'], 'prog_macro': ['qpd'],
+NEEDS = {'url_dashes': ['url'], 'href_dashes': ['hyperref'], 'prog_coltype_right': ['qpa'], 'prog_coltype_center': ['qpb'], 'prog_charsubs': ['qpc'], 'prog_macro': ['qpd'],
          'prog_counter': ['qpe'], 'prog_newif': ['qpf'], 'prog_userdata': ['qpg'],
          'ifthenelse_forms': ['ifthen'], 'xcolor_define': ['xcolor'], 'xcolor_redefine': ['xcolor'], 'xcolor_provide': ['xcolor'], 'xcolor_use': ['xcolor'],
          'amsthm_style': ['amsthm'], 'amsthm_plain': ['amsthm'], 'amsopn_declare': ['amsmath'], 'amsopn_provide': ['amsmath'],
@@ -452,7 +454,7 @@ def canonical(text, table):
 
 TRACK_ATTRS = set(['args', 'counter', 'level', 'format', 'trimLeft', 'macroName', 'str', 'mathMode', 'blockType',
                    'forcePars', 'captionable', 'linkType', 'templateName', 'columnTypes', 'position', 'nodeName',
-                   'refAttributes', 'unicode', 'numberwithin', 'title'])
+                   'refAttributes', 'unicode', 'numberwithin', 'title', 'nonNormalizedAttrs', 'defaultCharsubs'])
 
 
 def _stable(v, depth=0):
